@@ -116,17 +116,27 @@ package dockerlog
 //@   requires len(*h) > 0
 //@   ensures[removes-last] len(*h) == pre(len(*h)) - 1 && typeis[iterHeapElem](ret0) && same(as[iterHeapElem](ret0), pre((*h)[len(*h)-1]))
 
+// Data invariant of the merger: every heap element names one of the sources.
+//@ spec func heapWF(i *mergeIter) bool {
+//@   return forall(0, len(i.heap), func(k int) bool { return 0 <= i.heap[k].iterIdx && i.heap[k].iterIdx < len(i.iters) })
+//@ }
+
 //@ func (*mergeIter).init
+//@   requires[heap-names-sources] heapWF(i)
 //@   capture nx = call(iter.Next, 0)
 //@   capture ps = call(heap.Push, 0)
 //@   modifies *
 //@   ensures[once] i.initiazed
-//@   loop 0 modifies *
-//@   loop 0 invariant i.initiazed
+//@   ensures[heap-names-sources] heapWF(i)
+//@   loop 0 modifies i.heap, i.heap[*], record.*
+//@   loop 0 invariant i.initiazed && rangeindex+1 <= len(i.iters)
+//@   loop 0 invariant[heap-names-sources] heapWF(i)
 //@   loop 0 body_ensures[one-record-per-live-source] nx_called && ps_called == nx_r0
 //@   loop 0 body_ensures[tagged-with-its-source] ps_called ==> typeis[iterHeapElem](ps_a1) && as[iterHeapElem](ps_a1).iterIdx == rangeindex && as[iterHeapElem](ps_a1).record.Timestamp == record.Timestamp && as[iterHeapElem](ps_a1).record.Body == record.Body
 
 //@ func (*mergeIter).Next
+//@   requires[heap-names-sources] heapWF(i)
+//@   ensures[heap-names-sources] heapWF(i)
 //@   capture pp = call(heap.Pop, 0)
 //@   capture nx = call(iter.Next, 0)
 //@   capture er = call(iter.Err, 0)
